@@ -34,6 +34,7 @@ import (
 	"github.com/lindb/lindb/pkg/option"
 	protoCommonV1 "github.com/lindb/lindb/proto/gen/v1/common"
 	"github.com/lindb/lindb/query"
+	qctx "github.com/lindb/lindb/query/context"
 	"github.com/lindb/lindb/rpc"
 	"github.com/lindb/lindb/sql"
 	"github.com/lindb/lindb/sql/stmt"
@@ -42,12 +43,13 @@ import (
 
 // respObs is one response as seen by its receiver.
 type respObs struct {
-	Receiver string `json:"receiver"`
-	From     string `json:"from"`
-	Err      string `json:"err,omitempty"`
-	Series   int    `json:"series"`  // time series in the payload
-	Specs    int    `json:"specs"`   // aggregator specs in the payload
-	Dropped  bool   `json:"dropped"` // the receiver's task manager knows no task of this request id
+	Receiver string   `json:"receiver"`
+	From     string   `json:"from"`
+	Err      string   `json:"err,omitempty"`
+	Series   int      `json:"series"`  // time series in the payload
+	Specs    int      `json:"specs"`   // aggregator specs in the payload
+	Dropped  bool     `json:"dropped"` // the receiver's task manager knows no task of this request id
+	Groups   []string `json:"-"`       // group tags of the time series in the payload
 }
 
 func (o respObs) kind() string {
@@ -124,11 +126,12 @@ type xcluster struct {
 	// receiver (nil: canonical order = sorted by sender name).
 	Order func(receiver string, arrived []string) []string
 
-	pending map[string][]pendingResp // receiver|request id -> buffered responses
-	expect  map[string]int           // receiver|request id -> requests sent by the receiver
-	Obs     []respObs
-	Panics  []string // panics while a receiver handled a response
-	Plans   []string // physical plans the production state manager chose (State != nil)
+	pending  map[string][]pendingResp // receiver|request id -> buffered responses
+	expect   map[string]int           // receiver|request id -> requests sent by the receiver
+	Obs      []respObs
+	Panics   []string // panics while a receiver handled a response
+	splitSeq int
+	Plans    []string // physical plans the production state manager chose (State != nil)
 }
 
 type pendingResp struct {
@@ -347,6 +350,9 @@ func (c *xcluster) handOver(receiver string, p pendingResp) {
 		if err := tsList.Unmarshal(p.resp.Payload); err == nil {
 			o.Series = len(tsList.TimeSeriesList)
 			o.Specs = len(tsList.FieldAggSpecs)
+			for _, ts := range tsList.TimeSeriesList {
+				o.Groups = append(o.Groups, ts.Tags)
+			}
 		}
 	}
 	// recorded before the hand-over: handling the last response completes the query
@@ -436,6 +442,60 @@ func (c *xcluster) Query(root, db, sqlText string) (*commonmodels.ResultSet, err
 		return nil, fmt.Errorf("unexpected result type %T", rs)
 	}
 	return res, nil
+}
+
+// leafSplit sends the leaf plan of the database with the given receivers to every leaf, the way
+// IntermediateMetricContext.MakePlan does for the targets of a compute plan, and returns what
+// each leaf sent to each receiver. Nobody merges the responses (the receivers have no task).
+func (c *xcluster) leafSplit(db, sqlText string, receivers []string) ([]respObs, error) {
+	st, err := sql.Parse(sqlText)
+	if err != nil {
+		return nil, err
+	}
+	q := st.(*stmt.Query)
+	cfg, ok := c.dbCfg[db]
+	if !ok {
+		return nil, fmt.Errorf("harness: no database %s", db)
+	}
+	qctx.VerifCalcTimeRangeAndInterval(q, cfg)
+	payload, _ := q.MarshalJSON()
+	saved := c.Compute
+	c.Compute = nil
+	plans, err := (&xstate{c: c}).Choose(db, 1)
+	c.Compute = saved
+	if err != nil {
+		return nil, err
+	}
+	plan := plans[0]
+	for _, r := range receivers {
+		plan.AddReceiver(r)
+	}
+	c.mu.Lock()
+	c.Obs = nil
+	c.pending = map[string][]pendingResp{}
+	c.expect = map[string]int{}
+	c.splitSeq++
+	reqID := fmt.Sprintf("split-%d", c.splitSeq)
+	c.mu.Unlock()
+	req := &protoCommonV1.TaskRequest{RequestID: reqID, RequestType: protoCommonV1.RequestType_Data, PhysicalPlan: encoding.JSONMarshal(plan), Payload: payload}
+	tr := &xtransport{c: c, self: receivers[0]}
+	for _, target := range plan.Targets {
+		if err := tr.SendRequest(target.Indicator, req); err != nil {
+			return nil, err
+		}
+	}
+	want := len(plan.Targets) * len(receivers)
+	deadline := time.Now().Add(c.Timeout)
+	for {
+		obs := c.observed()
+		if len(obs) >= want {
+			return obs, nil
+		}
+		if time.Now().After(deadline) {
+			return obs, fmt.Errorf("harness: %d of %d leaf responses", len(obs), want)
+		}
+		time.Sleep(200 * time.Microsecond)
+	}
 }
 
 // observed returns a copy of the responses seen during the last query.
